@@ -527,6 +527,8 @@ func genTimeouts(p *params, emit func(string, bool)) {
 		mkProg("to-fail", "S:1:R,1,2:2:0:0:0 T:2:100:F,2,13,R,1,3:3:0"),
 		mkProg("to-skip", "S:1:R,1,2:2:0:0:0 T:2:100:R,1,0:3:0 C:2:R,1,3:3"),
 		mkProg("to-cb", "S:1:R,1,2:2:0:0:0 T:2:100:R,1,3:3:0 C:2:R,1,4:4"),
+		mkProg("to-two", "S:1:R,1,2:2:0:0:0 T:2:100:B,X,1,R,1,3:3,4:0 T:2:100:R,1,4:3,4:0"),
+		mkProg("to-two-pause", "S:1:R,1,2:2:0:0:0 T:2:100:B,P,1,E,1,14:3:1 T:2:120:R,1,3:3:0"),
 	}
 	for _, pr := range progs {
 		for _, d := range []int{0, 99, 100, 101, 250} {
